@@ -1,5 +1,5 @@
 (** C17 — input chunks with a selection vector: when every physical row is selected (the selection
-    is 0..len-1, or there is none) [push_sel] is [push]; so the flat-chunk theorems apply to exactly
+    is 0..len-1, or there is none) [push_sel_pre] is [push]; so the flat-chunk theorems apply to exactly
     those inputs, and finding C17-K9 concerns the others. *)
 From Coq Require Import List Arith Bool Lia.
 From GV Require Import Par.Merge Par.Push.
@@ -111,11 +111,11 @@ Section SelProofs.
   Lemma imap_limit : forall (l : list R) a, imap_from a (fun _ r => if true then [r] else []) l = l.
   Proof. induction l as [|r t IH]; intro a; cbn [imap_from app]; [reflexivity|]. rewrite IH. reflexivity. Qed.
 
-  (** outside the class of C17-K9 (the selection is a prefix 0..n-1): [push_sel] is [push] on those rows *)
+  (** outside the class of C17-K9 (the selection is a prefix 0..n-1): [push_sel_pre] is [push] on those rows *)
   Theorem push_sel_prefix_l : forall (k : opk) (s : opst) (phys : list R) n, n <= length phys ->
-    push_sel keq k s phys (seq 0 n) = push keq k s (firstn n phys).
+    push_sel_pre keq k s phys (seq 0 n) = push keq k s (firstn n phys).
   Proof.
-    intros k s phys n Hn. unfold push_sel. rewrite seq_length.
+    intros k s phys n Hn. unfold push_sel_pre. rewrite seq_length.
     assert (Ln : length (firstn n phys) = n) by (apply firstn_length_le; exact Hn).
     destruct k as [p|lim|key|cmp|f]; cbn [Push.push]; rewrite ?Ln.
     - rewrite pick_prefix by lia. rewrite (imap_filter p (firstn n phys) 0). reflexivity.
@@ -142,7 +142,7 @@ Section SelProofs.
 
   Theorem push_sel_not_k9_l : forall (k : opk) (s : opst) (phys : list R) sel,
     sel_is_prefix sel = true -> length sel <= length phys ->
-    push_sel keq k s phys sel = push keq k s (firstn (length sel) phys).
+    push_sel_pre keq k s phys sel = push keq k s (firstn (length sel) phys).
   Proof.
     intros k s phys sel H Hl. rewrite (sel_is_prefix_seq sel H) at 1. apply push_sel_prefix_l. exact Hl.
   Qed.
@@ -152,5 +152,18 @@ End SelProofs.
 Lemma push_sel_refuted_l : exists (phys : list nat) (sel : list nat),
   k_sel_not_prefix [sel] = true /\
   let k := @OFilter nat unit (fun _ => true) in
-  concat (snd (fst (push_sel (fun _ _ : unit => true) k st0 phys sel))) <> spec (fun _ _ : unit => true) k (sel_rows phys sel).
+  concat (snd (fst (push_sel_pre (fun _ _ : unit => true) k st0 phys sel))) <> spec (fun _ _ : unit => true) k (sel_rows phys sel).
 Proof. exists (seq 0 10), (seq 5 5). split; [reflexivity|]. vm_compute. discriminate. Qed.
+
+(** since c37ad07: the operators see the selected rows *)
+Lemma push_sel_spec_l : forall {R K} (keq : K -> K -> bool) (k : @opk R K) s phys sel,
+  push_sel keq k s phys sel = push keq k s (sel_rows phys sel).
+Proof. reflexivity. Qed.
+
+Lemma push_sel_pre_prefix_l : forall {R K} (keq : K -> K -> bool) (k : @opk R K) s (phys : list R) sel,
+  sel_is_prefix sel = true -> length sel <= length phys ->
+  push_sel_pre keq k s phys sel = push_sel keq k s phys sel.
+Proof.
+  intros R K keq k s phys sel H Hl. rewrite (push_sel_not_k9_l keq k s phys sel H Hl).
+  unfold push_sel. rewrite (sel_is_prefix_seq sel H) at 2. rewrite sel_rows_prefix by exact Hl. reflexivity.
+Qed.
